@@ -81,7 +81,8 @@ fn parse_header(cursor: &mut Cursor<'_>) -> Result<Header, TzFileError> {
 /// Parse TZif footer
 fn parse_footer(footer: &[u8], use_string_extensions: bool) -> Result<Option<TransitionRule>, TzError> {
     let footer = str::from_utf8(footer).map_err(TzFileError::from)?;
-    if !(footer.starts_with('\n') && footer.ends_with('\n')) {
+    // The footer is enclosed by two distinct newlines
+    if !(footer.len() >= 2 && footer.starts_with('\n') && footer.ends_with('\n')) {
         return Err(TzError::TzFile(TzFileError::InvalidFooter));
     }
 
